@@ -3,7 +3,7 @@
    the statements are tied to the regenerated description of the source. *)
 From Coq Require Import List NArith Bool.
 From LBZ Require Import Gen.Consts SchedX.XState Gen.SchedXTab SchedX.XSet SchedX.XModel SchedX.XInvDefs
-  SchedX.XF4 SchedX.XOracle SchedX.XSeq SchedX.XC10.
+  SchedX.XF4 SchedX.XOracle SchedX.XSeq SchedX.XC10 SchedX.XGranule.
 Import ListNotations.
 Local Open Scope N_scope.
 
@@ -32,3 +32,18 @@ Theorem C09_process :
     (completed st1 -> x_failed st2 = None) /\
     (exists l, x_written st1 = x_written st2 ++ l \/ x_written st2 = x_written st1 ++ l).
 Proof. exact C09_process_gen. Qed.
+
+(* Output buffer size: two cuttings of the blocks' output into buffers (out_granul) that
+   agree block-wise (the codec-layer fact about the resumable emit()) give sequential
+   decodings with the same result and, on success, the same bytes.  Together with
+   C09_process (each run writes its sequential decoding) the output bytes do not depend
+   on out_granul either. *)
+Theorem C09_output_buffer_size_independent :
+  forall (O1 O2 : oracle),
+    (forall ps p, next_hdr O1 ps p = next_hdr O2 ps p) -> (forall b, blk_end O1 b = blk_end O2 b) ->
+    forall bytes1 bytes2 : N -> N -> list N,
+    (forall b lv crc l1 r1 l2 r2, BlockOut O1 b lv crc 0 l1 r1 -> BlockOut O2 b lv crc 0 l2 r2 ->
+       r1 = r2 /\ (r1 = true -> out_bytes bytes1 l1 = out_bytes bytes2 l2)) ->
+    forall ps p L1 R1 L2 R2, SeqDec O1 ps p L1 R1 -> SeqDec O2 ps p L2 R2 ->
+      R1 = R2 /\ (R1 = true -> out_bytes bytes1 L1 = out_bytes bytes2 L2).
+Proof. exact seqdec_granule_indep. Qed.
